@@ -371,11 +371,40 @@ func (s *recFS) Lock(name string) (io.Closer, error) { return s.MemFS.Lock(name)
 // (internal/logdb keeps the record with the largest index; C09/C10)
 
 type cellLogDB struct {
-	r  *recorder
-	ss pb.Snapshot
+	r    *recorder
+	kv   *memKV        // what survives a crash
+	real raftio.ILogDB // internal/logdb over kv
+	ss   pb.Snapshot   // what the real GetSnapshot returns
 }
 
-func (l *cellLogDB) save(updates []pb.Update) error {
+func newCellLogDB(r *recorder) *cellLogDB {
+	l := &cellLogDB{r: r, kv: newMemKV()}
+	l.reopen()
+	return l
+}
+
+// reopen is a process restart: a new LogDB (new caches) over the durable KV.
+func (l *cellLogDB) reopen() {
+	if l.real != nil {
+		_ = l.real.Close()
+	}
+	l.real = openRealLogDB(l.kv)
+	l.refresh()
+}
+
+func (l *cellLogDB) refresh() {
+	ss, err := l.real.GetSnapshot(shardID, replicaID)
+	if err != nil {
+		panic(err)
+	}
+	l.ss = ss
+	*l.r.rec = ss.Index
+}
+
+// save records the operation and, unless the power is already off, hands the
+// update to the real LogDB.
+func (l *cellLogDB) save(updates []pb.Update, raftState bool) error {
+	var live []pb.Update
 	for _, ud := range updates {
 		if pb.IsEmptySnapshot(ud.Snapshot) {
 			continue
@@ -383,41 +412,52 @@ func (l *cellLogDB) save(updates []pb.Update) error {
 		if !l.r.note(fmt.Sprintf("record %d", ud.Snapshot.Index), false) {
 			continue
 		}
-		if ud.Snapshot.Index > l.ss.Index {
-			l.ss = ud.Snapshot
-			*l.r.rec = ud.Snapshot.Index
-		}
+		live = append(live, ud)
 	}
-	return nil
+	if len(live) == 0 {
+		return nil
+	}
+	var err error
+	if raftState {
+		err = l.real.SaveRaftState(live, 1)
+	} else {
+		err = l.real.SaveSnapshots(live)
+	}
+	l.refresh()
+	return err
 }
 
-func (l *cellLogDB) Name() string                                { return "c16-cell" }
+func (l *cellLogDB) Name() string                                { return "c16-real-logdb" }
 func (l *cellLogDB) Close() error                                { return nil }
-func (l *cellLogDB) BinaryFormat() uint32                        { return raftio.PlainLogDBBinVersion }
-func (l *cellLogDB) ListNodeInfo() ([]raftio.NodeInfo, error)    { return nil, nil }
-func (l *cellLogDB) SaveRaftState(u []pb.Update, _ uint64) error { return l.save(u) }
-func (l *cellLogDB) SaveSnapshots(u []pb.Update) error           { return l.save(u) }
-func (l *cellLogDB) GetSnapshot(uint64, uint64) (pb.Snapshot, error) {
-	return l.ss, nil
+func (l *cellLogDB) BinaryFormat() uint32                        { return l.real.BinaryFormat() }
+func (l *cellLogDB) ListNodeInfo() ([]raftio.NodeInfo, error)    { return l.real.ListNodeInfo() }
+func (l *cellLogDB) SaveRaftState(u []pb.Update, _ uint64) error { return l.save(u, true) }
+func (l *cellLogDB) SaveSnapshots(u []pb.Update) error           { return l.save(u, false) }
+func (l *cellLogDB) GetSnapshot(s uint64, r uint64) (pb.Snapshot, error) {
+	return l.real.GetSnapshot(s, r)
 }
-func (l *cellLogDB) SaveBootstrapInfo(uint64, uint64, pb.Bootstrap) error { return nil }
-func (l *cellLogDB) GetBootstrapInfo(uint64, uint64) (pb.Bootstrap, error) {
-	return pb.Bootstrap{}, raftio.ErrNoBootstrapInfo
+func (l *cellLogDB) SaveBootstrapInfo(s uint64, r uint64, b pb.Bootstrap) error {
+	return l.real.SaveBootstrapInfo(s, r, b)
 }
-func (l *cellLogDB) IterateEntries(e []pb.Entry, sz uint64, _ uint64, _ uint64, _ uint64, _ uint64, _ uint64) ([]pb.Entry, uint64, error) {
-	return e, sz, nil
+func (l *cellLogDB) GetBootstrapInfo(s uint64, r uint64) (pb.Bootstrap, error) {
+	return l.real.GetBootstrapInfo(s, r)
 }
-func (l *cellLogDB) ReadRaftState(uint64, uint64, uint64) (raftio.RaftState, error) {
-	return raftio.RaftState{}, raftio.ErrNoSavedLog
+func (l *cellLogDB) IterateEntries(e []pb.Entry, sz uint64, s uint64, r uint64, lo uint64, hi uint64, max uint64) ([]pb.Entry, uint64, error) {
+	return l.real.IterateEntries(e, sz, s, r, lo, hi, max)
 }
-func (l *cellLogDB) RemoveEntriesTo(uint64, uint64, uint64) error { return nil }
-func (l *cellLogDB) CompactEntriesTo(uint64, uint64, uint64) (<-chan struct{}, error) {
-	ch := make(chan struct{})
-	close(ch)
-	return ch, nil
+func (l *cellLogDB) ReadRaftState(s uint64, r uint64, last uint64) (raftio.RaftState, error) {
+	return l.real.ReadRaftState(s, r, last)
 }
-func (l *cellLogDB) RemoveNodeData(uint64, uint64) error        { return nil }
-func (l *cellLogDB) ImportSnapshot(pb.Snapshot, uint64) error   { return nil }
+func (l *cellLogDB) RemoveEntriesTo(s uint64, r uint64, i uint64) error {
+	return l.real.RemoveEntriesTo(s, r, i)
+}
+func (l *cellLogDB) CompactEntriesTo(s uint64, r uint64, i uint64) (<-chan struct{}, error) {
+	return l.real.CompactEntriesTo(s, r, i)
+}
+func (l *cellLogDB) RemoveNodeData(s uint64, r uint64) error { return l.real.RemoveNodeData(s, r) }
+func (l *cellLogDB) ImportSnapshot(ss pb.Snapshot, r uint64) error {
+	return l.real.ImportSnapshot(ss, r)
+}
 
 // ---------------------------------------------------------------------------
 // one replica's world
@@ -434,6 +474,7 @@ type world struct {
 	saved     map[uint64]pb.Snapshot
 	rec       uint64
 	disk      *diskState
+	reg       bool
 	node      *hk8.Node
 	proxy     *nodeProxy
 	dead      bool
@@ -442,20 +483,24 @@ type world struct {
 
 func rootFunc(uint64, uint64) string { return rootDir }
 
-func newWorld(cut int) *world { return newWorldKind(cut, false) }
+func newWorld(cut int) *world { return newWorldKind(cut, "") }
 
-func newWorldKind(cut int, disk bool) *world {
+// kind: "" (snapshotter only), "disk" (a real *node over an on-disk state machine),
+// "reg" (a real *node over a regular state machine)
+func newWorldKind(cut int, kind string) *world {
+	disk := kind != ""
 	w := &world{mem: hk.NewStrictMem(), delivered: map[uint64]bool{}, saved: map[uint64]pb.Snapshot{}, recvSS: map[uint64]pb.Snapshot{}}
 	w.r = &recorder{mem: w.mem, cut: cut, rec: &w.rec}
 	w.fs = &recFS{MemFS: w.mem, r: w.r}
 	if err := hk.MkdirAll(rootDir, w.fs); err != nil {
 		panic(err)
 	}
-	w.ldb = &cellLogDB{r: w.r}
+	w.ldb = newCellLogDB(w.r)
 	w.snap = dragonboat.NewVerifC16(shardID, replicaID, rootFunc, w.ldb, w.fs)
 	w.newChunks()
 	if disk {
 		w.disk = &diskState{}
+		w.reg = kind == "reg"
 		if oc := w.startNode(true); oc != "ok" {
 			panic("cannot start the on-disk replica: " + oc + " " + w.lastPanic)
 		}
@@ -622,7 +667,7 @@ type command struct {
 
 func (c command) String() string {
 	switch c.kind {
-	case "SAVE", "RECV":
+	case "SAVE", "RECV", "EXPORT":
 		return fmt.Sprintf("%s %d %d", c.kind, c.i, c.n)
 	case "RECVX":
 		return fmt.Sprintf("%s %d %d %d", c.kind, c.i, c.n, c.m)
@@ -719,11 +764,37 @@ func (w *world) do(c command) (outcome string) {
 				outcome = "err"
 				return
 			}
-			if err := w.snap.VerifRemoveFlagFile(c.i); err != nil {
+			// engine.onSnapshotSaved -> node.removeSnapshotFlagFile (the real functions)
+			if err := w.snap.VerifEngineOnSnapshotSaved([]pb.Update{ud}); err != nil {
 				outcome = "err"
 				return
 			}
 			outcome = "ok"
+		case "EXPORT":
+			// an exported snapshot (SSRequest{Type: Exported}): written next to the
+			// replica's data, never recorded, nothing touched in the snapshot directory
+			if c.i == 0 {
+				outcome = "skip"
+				return
+			}
+			dir := fmt.Sprintf("/export/x%d", c.i)
+			if err := hk.MkdirAll(dir, w.fs); err != nil {
+				panic(err)
+			}
+			if err := w.snap.VerifSaveExported(c.i, 1, payloadOf(c.i, c.n), dir); err != nil {
+				outcome = "err"
+				return
+			}
+			outcome = "ok"
+			if !w.r.frozen {
+				fp := path.Join(dir, fmt.Sprintf("snapshot-%016X", c.i), fmt.Sprintf("snapshot-%016X.gbsnap", c.i))
+				if st := snapState(w.mem, fp); st != "full" {
+					w.r.monitor = append(w.r.monitor, fmt.Sprintf("exported snapshot %d is not a complete file at %s (%s)", c.i, fp, st))
+				}
+				if _, err := w.mem.Stat(path.Join(dir, fmt.Sprintf("snapshot-%016X", c.i), hk.SnapshotFlagFilename)); err == nil {
+					w.r.monitor = append(w.r.monitor, fmt.Sprintf("exported snapshot %d still has its flag file", c.i))
+				}
+			}
 		case "RECORD":
 			// engine.processSteps up to and including SaveRaftState; onSnapshotSaved
 			// (the flag removal) has not run yet
@@ -771,6 +842,7 @@ func (w *world) do(c command) (outcome string) {
 				return
 			}
 			w.mem.ResetToSyncedState()
+			w.ldb.reopen()
 			w.newChunks()
 			w.saved = map[uint64]pb.Snapshot{}
 			w.recvSS = map[uint64]pb.Snapshot{}
@@ -804,6 +876,7 @@ func (w *world) powerLoss() {
 	w.r.cut = -1
 	w.r.extra = 0
 	w.r.take()
+	w.ldb.reopen()
 	w.newChunks()
 	w.saved = map[uint64]pb.Snapshot{}
 	w.recvSS = map[uint64]pb.Snapshot{}
